@@ -239,3 +239,35 @@ fn k_hist_empty_writer_drop() {
     assert!(be32(&shx_buf, 0) == 9994 && be32(&shx_buf, 24) == 50 && le32(&shx_buf, 28) == 1000 && le32(&shx_buf, 32) == 0);
     assert!(shp_buf[99] != 0xAA && shp_buf[100] == 0xAA && shx_buf[100] == 0xAA);
 }
+
+/// C09 (bounded): finalize placement does not change the header ranges. History: write PointM with a NaN measure
+/// (its range leaves the running M range at the neutral infinities), optional finalize, write PointM with measure m
+/// (symbolic, finite or infinite, not NaN), drop. The header M range must be [m, m] whether or not the intermediate
+/// finalize ran (defect fixed by 4bbb622: finalize used to store the zeroed "untouched" range into the accumulator).
+#[kani::proof]
+#[kani::unwind(24)]
+fn k_hist_finalize_keeps_accumulator() {
+    let mut shp_buf = [0u8; 200];
+    let m: u64 = kani::any();
+    kani::assume(!f64::from_bits(m).is_nan());
+    let fin: bool = kani::any();
+    {
+        let mut w = ShapeWriter::new(Mem { buf: &mut shp_buf[..], pos: 0, len: 0 });
+        let r = w.write_shape(&PointM::new(1.0, 2.0, f64::NAN));
+        assert!(r.is_ok());
+        std::mem::forget(r);
+        if fin {
+            let r = w.finalize();
+            assert!(r.is_ok());
+            std::mem::forget(r);
+        }
+        let r = w.write_shape(&PointM::new(3.0, 4.0, f64::from_bits(m)));
+        assert!(r.is_ok());
+        std::mem::forget(r);
+    }
+    let expect = if f64::from_bits(m) <= crate::NO_DATA { 0.0f64.to_bits() } else { m };
+    assert!(le32(&shp_buf, 32) == 21);
+    assert!(le64(&shp_buf, 84) == expect && le64(&shp_buf, 92) == expect);
+    kani::cover!(fin);
+    kani::cover!(!fin);
+}
